@@ -2216,7 +2216,7 @@ def _generic_obs(events, python):
 
 def replay(data):
     case = data.get("case") or {}
-    if isinstance(case, dict) and case.get("family") == "pinexpr":
+    if isinstance(case, dict) and case.get("family") in ("pinexpr", "pinexpr-servo"):
         return PX.replay(case)
     src = case.get("src") if isinstance(case, dict) else (case if isinstance(case, str) else None)
     if not src:
